@@ -5,6 +5,9 @@ open Irismod Irismod.Sdk Irismod.Farm Irismod.Spec Irismod.Spec.C13Farm Irismod.
 #print axioms end_blocks_total
 #print axioms end_block_handles_due
 #print axioms handled_exactly_once
+#print axioms gov_step_total
+#print axioms gov_step_ok
+#print axioms cp_pool_is_queued
 #print axioms end_topup_history_handled
 -- non-vacuity: in the F-farm-1 history run on to the pool's end height 110 the EndBlocker finds the pool due,
 -- refunds it and empties the queue
@@ -14,3 +17,13 @@ open Irismod Irismod.Sdk Irismod.Farm Irismod.Spec Irismod.Spec.C13Farm Irismod.
   decide (s.height = 110) && s.queue.contains (110, "farm-1") && !(endBlocks 99 (run w1Genesis w1Ops)).2 &&
   s2.queue.isEmpty && queueOkB s && queueOkB s2 &&
   (((getPool s2 "farm-1").getD default).rules.all fun r => r.remaining == 0 && r.nRefund == 1)}"
+
+-- non-vacuity for the gov steps (history w3): the pass of proposal 1 and the failed deposit of proposal 2 are accepted
+-- block steps, the pool they create is queued at its end height 60 and handled there by the farm EndBlocker
+#eval s!"nonvacuous {
+  let s3 := run w3Genesis (w3Ops.take 3)
+  let s6 := run w3Genesis (w3Ops.take 6)
+  let s7 := run w3Genesis (w3Ops.take 7)
+  Spec.C05.isOkE (step s3 (.cpPass 1)) && Spec.C05.isOkE (step s3 (.cpFailDeposit 2)) && Spec.C05.isOkE (step s3 (.cpReject 7)) &&
+  s6.queue.contains (60, "farm-1") && queueOkB s6 && s7.queue.isEmpty && decide (s7.height = 61) &&
+  (((getPool s7 "farm-1").getD default).rules.all fun r => r.remaining == 0 && r.nRefund == 1)}"
